@@ -166,6 +166,34 @@ def string_value(n):
     return n.value or ''
 
 
+def string_value_preorder_tail(n):
+    """Recorded deviation (pinned by tests/test_xpath_nodes.py::test_elem_iter_strings_function): the
+    string value of an element is built by a pre-order walk that emits each element's text and then its
+    *tail* before its children, and drops the tail of comments and processing instructions."""
+    if n.kind == 'document':
+        return ''.join(string_value_preorder_tail(c) for c in n.children if c.kind in ('element', 'text'))
+    if n.kind != 'element':
+        return n.value or ''
+    out = []
+
+    def tail_of(parent, i):
+        nxt = parent.children[i + 1] if i + 1 < len(parent.children) else None
+        return nxt.value if nxt is not None and nxt.kind == 'text' else None
+
+    def rec(x, parent, i, top):
+        if x.children and x.children[0].kind == 'text':
+            out.append(x.children[0].value)
+        if not top:
+            t = tail_of(parent, i)
+            if t is not None:
+                out.append(t)
+        for j, c in enumerate(x.children):
+            if c.kind == 'element':
+                rec(c, x, j, False)
+    rec(n, None, 0, True)
+    return ''.join(out)
+
+
 # ---- axes ----------------------------------------------------------------------------
 
 def _descendants(n, out):
